@@ -14,7 +14,7 @@ _cells.update({'equality_checked': 5000, 'equality_against_stripped_rebuild': 20
 _cells.update({'route_plain': 5000, 'route_lightweight_copy_private_mutation': 1000, 'route_lightweight_copy_shared_mutation': 1000, 'route_from_bytes_then_mutated': 1000,
                'route_copy_then_mutated': 1000, 'route_swapcontents': 1000, 'route_crossname': 1000, 'second_messages_checked': 2000,
                'crossname_swapname': 300, 'crossname_swapname_both_present': 100, 'crossname_swapname_one_present': 100, 'crossname_movename': 300, 'crossname_copyname': 300, 'crossname_sharename': 300,
-               'op_sort': 5000, 'op_sort_one_item_range': 5000, 'op_normalize': 5000, 'op_findcopy_message_by_value': 2000, 'op_findcopy_cstr': 1000,
+               'op_sort': 5000, 'op_sort_one_item_range': 5000, 'op_normalize': 5000, 'op_findcopy_message_by_value': 2000, 'op_findcopy_cstr': 1000, 'op_findcopy_findflat_object': 1000,
                'op_mutate_itemop': 2000, 'op_mutate_newfield': 300, 'op_mutate_removename': 300, 'op_mutate_what': 300,
                'used_target_unrelated': 3000, 'used_target_copy_of_same': 3000, 'used_target_variant_of_same': 3000, 'used_target_previously_parsed': 3000,
                'used_target_nonempty_incoming_empty': 500, 'used_target_had_more_fields': 2000, 'used_target_had_fewer_fields': 2000, 'equality_checked_on_used_target': 5000,
